@@ -175,8 +175,15 @@ class AirTouchSocket(Generic[comms.Hdr]):
     async def close(self) -> None:
         """Close the socket to the AirTouch."""
         if self.is_open:
-            await self._disconnect()
+            # Mark the socket as closed before disconnecting so that no new
+            # connection attempt can start, then cancel any connection attempts
+            # (in flight or waiting for a retry) and the read loop.
             self.is_open = False
+            current_task = asyncio.current_task()
+            for task in list(self._background_tasks):
+                if task is not current_task:
+                    task.cancel()
+            await self._disconnect()
 
     async def send(self, message: comms.Message, retry_policy: RetryPolicy) -> None:
         """Send a message to the AirTouch.
@@ -294,6 +301,10 @@ class AirTouchSocket(Generic[comms.Hdr]):
         task.add_done_callback(discard_task)
 
     async def _connect(self) -> None:
+        if not self.is_open:
+            _LOGGER.debug("_connect ignored. Socket is closed")
+            return
+
         if self.is_connected or self._connecting:
             _LOGGER.debug("_connect ignored. Already connected or connecting")
             return
